@@ -196,3 +196,68 @@ Print Assumptions C03_measure.
 Print Assumptions C03_no_deadlock.
 Print Assumptions C03_close_completes.
 Print Assumptions C03_needs_child_exit_witness.
+
+(** ---- tie of the close path of the model to nextline/imp.py + nextline/main.py ----
+    Gen/ImpSkeleton.v is REGENERATED from the source by translate/imp_skeleton.py at every check;
+    Life/ImpTie.v interprets it ([exec]: an oracle decides at every await whether it raises and
+    the value of every untracked condition).  All statements are for every oracle. *)
+From Coq Require Import String.
+From NL Require Import Life.ImpSyntax Gen.ImpSkeleton Life.ImpTie.
+
+(** every trigger and every pubsub.close() under the lock; the lock never requested while held,
+    user code never run under it, and free again when the call ends -- whatever raised *)
+Theorem C03_tie_lock_released_on_every_path : forall ob m, In m (names ob) -> forall st cl o,
+  let x := exec ob m st cl o in
+  res_of x <> RBad /\ lock_ok false (trace_of x) = true /\ lk_held (cfg_of x) = false.
+Proof. exact lock_discipline. Qed.
+
+(** the actions of Nextline.close() / Imp.aclose() in the code are, in this order, those of the
+    model's close paths (pubsub.close; the wait iff 'running'; the trigger; pubsub.close again;
+    Continuous.close), the model holding the lock at every gate of the path *)
+Theorem C03_tie_close_order :
+  happy ONextline "close"%string true false false = [model_acts 2 s_started close_ls_idle] /\
+  happy ONextline "close"%string true false true = [model_acts 2 s_running close_ls_running] /\
+  happy ONextline "close"%string false false false = [model_acts 2 st_created close_ls_fresh] /\
+  happy ONextline "close"%string true true false = [model_acts 2 s_closed [Model.Call 3 CClose]] /\
+  map (fun a => a ++ [AContClose]) (happy OImp "aclose"%string true false false) = [model_acts 2 s_started close_ls_idle] /\
+  map (fun a => a ++ [AContClose]) (happy OImp "aclose"%string true false true) = [model_acts 2 s_running close_ls_running] /\
+  model_holds 2 s_started close_ls_idle = true /\ returned_ok 2 (run_labels s_started close_ls_idle) = true /\
+  model_holds 2 s_running close_ls_running = true /\ returned_ok 2 (run_labels s_running close_ls_running) = true /\
+  model_holds 2 st_created close_ls_fresh = true /\ returned_ok 2 (run_labels st_created close_ls_fresh) = true /\
+  st_fsm s_running = Running /\ st_fsm s_started = Initialized /\
+  model_acts 2 s_running close_ls_running = [APubSubClose; AWaitRun; ATrigClose; APubSubClose; AContClose] /\
+  model_acts 2 st_created close_ls_fresh = [AContStart; ATrigOpen; APubSubClose; ATrigClose; APubSubClose; AContClose].
+Proof. exact close_order_agrees. Qed.
+
+(** every execution of close() (also those in which something raises) is such a path cut at the
+    failing await; Continuous.start()/close() run outside the lock *)
+Theorem C03_tie_close_cut_path : forall m, In m close_names -> forall st cl o,
+  close_shape st cl (exec ONextline m st cl o) = true.
+Proof. exact close_every_execution_is_a_cut_path. Qed.
+
+(** the wait for the run is under the lock in close(), outside it in run_session() *)
+Theorem C03_tie_wait_lock_status :
+  (forall m, In m close_names -> forall st cl o, waits_held true false (trace_of (exec ONextline m st cl o)) = true) /\
+  (forall st cl o, waits_held true false (trace_of (exec OImp "aclose"%string st cl o)) = true) /\
+  (forall m, In m session_names -> forall st cl o, waits_held false false (trace_of (exec ONextline m st cl o)) = true) /\
+  locked_pc C_WaitRunFinished = true /\ locked_pc P_WaitRunFinished = false.
+Proof. exact wait_for_run_lock_status. Qed.
+
+(** a second close() returns at the `_closed` guard *)
+Theorem C03_tie_second_close_does_nothing : forall st o,
+  exec ONextline "close"%string st true o =
+    (RNorm, mkCfg st true false, [EEnter ONextline "close"%string; EGuard (GFlag FClosed) true]).
+Proof. exact second_close_does_nothing. Qed.
+
+(** close() on a never-started object starts it first (fix 3e5a1b5) *)
+Theorem C03_tie_close_starts_first : forall m, In m close_names -> forall o,
+  let x := exec ONextline m false false o in
+  opened_first false (trace_of x) = true /\ f_started (cfg_of x) = true /\ f_closed (cfg_of x) = true.
+Proof. exact close_starts_first. Qed.
+
+Print Assumptions C03_tie_lock_released_on_every_path.
+Print Assumptions C03_tie_close_order.
+Print Assumptions C03_tie_close_cut_path.
+Print Assumptions C03_tie_wait_lock_status.
+Print Assumptions C03_tie_second_close_does_nothing.
+Print Assumptions C03_tie_close_starts_first.
